@@ -4,6 +4,8 @@ import (
 	"bytes"
 	"fmt"
 	assettypes "github.com/comdex-official/comdex/x/asset/types"
+	auctiontypes "github.com/comdex-official/comdex/x/auction/types"
+	auctionsV2types "github.com/comdex-official/comdex/x/auctionsV2/types"
 	esmtypes "github.com/comdex-official/comdex/x/esm/types"
 	"reflect"
 	"sort"
@@ -234,6 +236,12 @@ func c20RoundTrip(t *testing.T, rec *ev.Rec, round int, queries []c20Query) {
 		rec.Note("state-building workload ended by a block-hook panic; round skipped")
 		return
 	}
+	// in some rounds one app has gone through a complete emergency shutdown before the export (executed status,
+	// deposits, price snapshot, redemption records, partly redeemed)
+	if variant%3 == 1 {
+		r.esmPhase(u.cdpApps[variant%len(u.cdpApps)])
+		rec.Count("rounds_with_executed_shutdown", 1)
+	}
 	// emergency-control records: the admin has used the kill switch (one app switched on and off again, in half of
 	// the rounds the other one left on), so the exported state contains kill-switch records
 	admin := c.Accts[1]
@@ -299,7 +307,7 @@ func c20RoundTrip(t *testing.T, rec *ev.Rec, round int, queries []c20Query) {
 			rec.Violate("C20/state/bandoracle/oracle-request-state-not-carried", "the oracle request / validation state differs after the round trip: "+bandOrig+" vs "+b+" (prices are deactivated by the market begin blocker while validation is false)", map[string]interface{}{"original": bandOrig, "imported": b})
 		}
 	}
-	nBefore := rec.NViolations()
+	labelsBefore := rec.LabelCounts()
 	// (a) every query of every DeFi module answers the same on both committed states
 	c20CompareQueries(rec, c, imp, queries, addrs)
 	// id counters, read through the keepers
@@ -351,12 +359,43 @@ func c20RoundTrip(t *testing.T, rec *ev.Rec, round int, queries []c20Query) {
 			rec.Violate("C20/state/"+d, "the typed state read through the keepers differs right after the round trip: "+d, map[string]interface{}{"feature_set": feature, "detail": c20LastDiffDetail})
 		}
 	}
-	if rec.NViolations() != nBefore {
-		// the round trip already changed something: the continuation is bound to diverge as a consequence
+	// Differences the round trip has already shown: id counters can be healed on the imported chain (so that the
+	// continuation can still reveal OTHER differences); some affect only a log/history query; anything else makes the
+	// continuation diverge as a mere consequence, and it is skipped.
+	healCounters, healBids, healLimit, blocking := false, false, false, ""
+	var healPrefixes []c20Prefix
+	for l, n := range rec.LabelCounts() {
+		if n == labelsBefore[l] {
+			continue
+		}
+		switch {
+		case strings.HasPrefix(l, "C20/counter/"):
+			healCounters = true
+		case l == "C20/state/bids-v2":
+			healBids = true
+		case strings.HasPrefix(l, "C20/query/auctionsV2.") && strings.Contains(l, "LimitBid") || l == "C20/state/limit-bids" || l == "C20/state/limit-bid-totals":
+			healLimit = true
+		case l == "C20/query/auction.QueryDutchBiddings":
+			// the bidders' records of live generation-1 auctions
+			healPrefixes = append(healPrefixes, c20Prefix{auctiontypes.StoreKey, auctiontypes.UserKeyPrefix})
+		case l == "C20/query/esm.QuerySnapshotPrice" || l == "C20/query/esm.QueryAssetDataAfterCoolOff" || l == "C20/query/vault.QueryVaultInfoOfOwnerByApp":
+			// the price snapshot and the redemption records of an executed emergency shutdown
+			healPrefixes = append(healPrefixes, c20Prefix{esmtypes.StoreKey, esmtypes.SnapshotKeyPrefix}, c20Prefix{esmtypes.StoreKey, esmtypes.AssetToAmountKeyPrefix})
+		case l == "C20/query/liquidationsV2.QueryAppReserveFundsTxData" || l == "C20/query/lend.QueryFundModBalByAssetPool" || l == "C20/state/bandoracle/oracle-request-state-not-carried":
+		default:
+			blocking = l
+		}
+	}
+	if blocking != "" {
 		rec.Count("continuations_skipped_after_import_difference", 1)
+		rec.Count("continuation_skipped_because:"+blocking, 1)
 		return
 	}
-	rec.Count("clean_imports:"+feature, 1)
+	if healCounters || healBids || healLimit || len(healPrefixes) > 0 {
+		rec.Count("continuations_after_healing_id_counters:"+feature, 1)
+	} else {
+		rec.Count("clean_imports:"+feature, 1)
+	}
 	// (b) the same continuation on both chains
 	dt := time.Duration(6) * time.Second
 	c.Header.Time = c.Header.Time.Add(dt)
@@ -370,6 +409,43 @@ func c20RoundTrip(t *testing.T, rec *ev.Rec, round int, queries []c20Query) {
 	}
 	c.Begin()
 	imp.Begin()
+	for _, hp := range healPrefixes {
+		c20CopyPrefix(c, imp, hp)
+	}
+	if healLimit {
+		// limit-bid deposits, their totals and the per-address index are copied over key by key (their loss is
+		// reported by the C20 limit-bid labels)
+		src := c.Ctx().KVStore(c.App.GetKey(auctionsV2types.StoreKey))
+		dst := imp.Ctx().KVStore(imp.App.GetKey(auctionsV2types.StoreKey))
+		for _, pre := range [][]byte{auctionsV2types.UserLimitBidMappingKeyPrefix, auctionsV2types.UserLimitBidMappingKeyForAddressPrefix, auctionsV2types.MarketBidProtocolKeyPrefix} {
+			it := sdk.KVStorePrefixIterator(src, pre)
+			for ; it.Valid(); it.Next() {
+				dst.Set(append([]byte(nil), it.Key()...), append([]byte(nil), it.Value()...))
+			}
+			it.Close()
+		}
+	}
+	if healBids {
+		// the bid records of live auctions are copied over (their loss is reported as C20/state/bids-v2)
+		for _, b := range u.snap().BidsV2 {
+			_ = imp.App.NewaucKeeper.SetUserBid(imp.Ctx(), b)
+			_ = imp.App.NewaucKeeper.SetIndividualUserBid(imp.Ctx(), b)
+		}
+	}
+	if healCounters {
+		oc, ic, oa, ia := c.Ctx(), imp.Ctx(), c.App, imp.App
+		ia.VaultKeeper.SetIDForVault(ic, oa.VaultKeeper.GetIDForVault(oc))
+		ia.VaultKeeper.SetIDForStableVault(ic, oa.VaultKeeper.GetIDForStableVault(oc))
+		ia.LockerKeeper.SetIDForLocker(ic, oa.LockerKeeper.GetIDForLocker(oc))
+		ia.LiquidationKeeper.SetLockedVaultID(ic, oa.LiquidationKeeper.GetLockedVaultID(oc))
+		ia.NewliqKeeper.SetLockedVaultID(ic, oa.NewliqKeeper.GetLockedVaultID(oc))
+		ia.AuctionKeeper.SetAuctionID(ic, oa.AuctionKeeper.GetAuctionID(oc))
+		ia.AuctionKeeper.SetLendAuctionID(ic, oa.AuctionKeeper.GetLendAuctionID(oc))
+		ia.AuctionKeeper.SetUserBiddingID(ic, oa.AuctionKeeper.GetUserBiddingID(oc))
+		ia.NewaucKeeper.SetAuctionID(ic, oa.NewaucKeeper.GetAuctionID(oc))
+		ia.NewaucKeeper.SetUserBidID(ic, oa.NewaucKeeper.GetUserBidID(oc))
+		ia.NewaucKeeper.SetLimitAuctionBidID(ic, oa.NewaucKeeper.GetLimitAuctionBidID(oc))
+	}
 	u2 := *u
 	u2.c = imp
 	impU := &u2
@@ -417,18 +493,14 @@ func c20RoundTrip(t *testing.T, rec *ev.Rec, round int, queries []c20Query) {
 				if tx != nil && len(tx.GetMsgs()) > 0 {
 					what = sdk.MsgTypeURL(tx.GetMsgs()[0])
 				}
-				rec.Violate("C20/continuation/tx-result-differs/"+strings.TrimPrefix(what, "/comdex."), fmt.Sprintf("tape position %d: the same transaction has a different result on the re-imported chain (code %d, %s)", i, res.Code, trunc(res.Log)), map[string]interface{}{"msg": what, "tape_position": i})
+				rec.Violate("C20/continuation/tx-result-differs/"+strings.TrimPrefix(what, "/comdex."), fmt.Sprintf("tape position %d: the same transaction has a different result on the re-imported chain (code %d, %s)", i, res.Code, trunc(res.Log)), map[string]interface{}{"msg": what, "tape_position": i, "message": fmt.Sprintf("%+v", tx.GetMsgs()), "recorded_result_digest": rc.ResultNoGas, "log": res.Log})
 				diverged = true
 			}
 		case "block":
 			imp.NextBlock(time.Duration(rc.Dt))
 			rec.Count("continuation_blocks", 1)
 		case "env":
-			if rc.Env == "price" {
-				var p uint64
-				fmt.Sscan(rc.Args[1], &p)
-				impU.setPrice(rc.Args[0], p, rc.Args[2] == "true")
-			}
+			imp.ApplyEnv(rc) // the harness's own price-feeder writes
 		}
 	}
 	if !diverged {
@@ -444,6 +516,23 @@ func c20RoundTrip(t *testing.T, rec *ev.Rec, round int, queries []c20Query) {
 	rec.Distinct("C20", variant, len(tape.Recs)/50, diverged)
 }
 
+// c20Prefix names records that a known, reported genesis gap loses; the harness copies them to the imported chain
+// before the continuation so that the continuation can reveal differences OTHER than the already reported ones.
+type c20Prefix struct {
+	store  string
+	prefix []byte
+}
+
+func c20CopyPrefix(from, to *sim.Chain, hp c20Prefix) {
+	src := from.Ctx().KVStore(from.App.GetKey(hp.store))
+	dst := to.Ctx().KVStore(to.App.GetKey(hp.store))
+	it := sdk.KVStorePrefixIterator(src, hp.prefix)
+	defer it.Close()
+	for ; it.Valid(); it.Next() {
+		dst.Set(append([]byte(nil), it.Key()...), append([]byte(nil), it.Value()...))
+	}
+}
+
 // c20SnapDiff names the first component of the typed snapshot that differs.
 func c20SnapDiff(a, b *cdpSnap) string {
 	cmp := func(name string, x, y interface{}) string {
@@ -457,7 +546,7 @@ func c20SnapDiff(a, b *cdpSnap) string {
 		cmp("vaults", a.Vaults, b.Vaults), cmp("stable-vaults", a.Stable, b.Stable), cmp("product-totals", a.Mappings, b.Mappings), cmp("vault-count", a.LenVault, b.LenVault),
 		cmp("locked-vaults-v1", a.LockedV1, b.LockedV1), cmp("locked-vaults-v2", a.LockedV2, b.LockedV2), cmp("dutch-auctions-v1", a.DutchV1, b.DutchV1), cmp("auctions-v2", a.AucV2, b.AucV2),
 		cmp("net-fees", a.NetFees, b.NetFees), cmp("lockers", a.Lockers, b.Lockers), cmp("locker-totals", a.LockerTot, b.LockerTot), cmp("balances", a.Bal, b.Bal), cmp("supply", a.Supply, b.Supply),
-		cmp("limit-bids", a.LimitBids, b.LimitBids), cmp("limit-bid-totals", a.LimitProt, b.LimitProt), cmp("prices", a.Price, b.Price),
+		cmp("bids-v2", a.BidsV2, b.BidsV2), cmp("limit-bids", a.LimitBids, b.LimitBids), cmp("limit-bid-totals", a.LimitProt, b.LimitProt), cmp("prices", a.Price, b.Price),
 	} {
 		if d != "" {
 			return d
@@ -471,7 +560,7 @@ func TestC20(t *testing.T) {
 	defer finish(t, rec)
 	queries := c20Queries()
 	rec.Count("query_methods_enumerated", int64(len(queries)))
-	rounds := ev.Pick(1, 4)
+	rounds := ev.Pick(2, 6)
 	for i := 0; i < rounds; i++ {
 		c20RoundTrip(t, rec, i, queries)
 	}
